@@ -420,5 +420,5 @@ Proof. vm_compute. split; reflexivity. Qed.
 Example C11_open_close_run :
   events (fst (run cfg_w init (open_by_user ++ [CmdClose 0]))) = [UOpened 0 DOut; UClosed 0] /\
   (* a slow close: the user is told at once, the task's own report later is ignored *)
-  events (fst (run cfg_w init (open_by_user ++ [Gate 0; CmdClose 0; Release 0]))) = [UOpened 0 DOut; UClosed 0].
+  events (fst (run cfg_w init (open_by_user ++ [Gate 0; CmdClose 0; Release 0 false]))) = [UOpened 0 DOut; UClosed 0].
 Proof. vm_compute. split; reflexivity. Qed.
